@@ -108,7 +108,13 @@ def displaceOp (j : Json) : R Json := do
   let r := displace (← g "ddt") (← g "dd") (← g "gamma_ppn") (← g "lambda_mst") (← g "kappa_ext") (← g "mag")
   pure (Json.mkObj [("ddt", jf r.1), ("dd", jf r.2.1), ("mag", jf r.2.2)])
 
+/-- op `Lens.declared`: the declared populations `(mean, sigma)` of a lens -/
+def declaredOp (j : Json) : R Json := do
+  let cfg ← lensCfg (← field j "cfg")
+  let h ← hyper (← field j "hyper")
+  pure (Json.mkObj [("pairs", Json.arr ((declared cfg h).map (fun p => Json.arr #[jf p.1, jf p.2])).toArray)])
+
 def ops : List (String × (Json → R Json)) :=
-  [("Lens.single", single), ("Lens.hyper", hyperOp), ("Lens.displace", displaceOp)]
+  [("Lens.single", single), ("Lens.hyper", hyperOp), ("Lens.displace", displaceOp), ("Lens.declared", declaredOp)]
 
 end HierArc.Drv.Lens
